@@ -397,6 +397,61 @@ def _templates():
     add('attr-store-with', ast_, 'with open(0) as §.‹zq›: pass')
     add('attr-store-on-attr', ast_, '§.zq.‹zr› = 0')
     add('attr-store-real', ast_, '§.‹zq› = 0\n_t = §.zq')
+    # '#' left of the cursor in every place that is NOT a comment; the focus is a name read / attribute access, so
+    # the transparency oracle decides (a tool that guesses "cursor is in a comment" from the line must not go blind)
+    def hs(tid, tpl, kind=n):
+        add('hash-' + tid, kind, tpl)
+    hs('dq', '_t = "#" + ‹§›')
+    hs('sq', "_t = '#' + ‹§›")
+    hs('dq-mid', '_t = ("a#b", ‹§›)')
+    hs('bytes', '_t = (b"#", ‹§›)')
+    hs('raw', '_t = (r"#", ‹§›)')
+    hs('rawbytes', "_t = (rb'#', ‹§›)")
+    hs('u', '_t = (u"#", ‹§›)')
+    hs('f-literal', '_t = (f"#", ‹§›)')
+    hs('F-literal-field', "_t = (F'#{0}', ‹§›)")
+    hs('triple-dq-oneline', '_t = ("""#""", ‹§›)')
+    hs('triple-sq-oneline', "_t = ('''#''', ‹§›)")
+    hs('escaped-sq', "_t = ('\\'#', ‹§›)")
+    hs('escaped-dq', '_t = ("\\"#", ‹§›)')
+    hs('escaped-apostrophe', "_t = ('it\\'s #1', ‹§›)")
+    hs('raw-backslash-sq', "_t = r'\\'#' + ‹§›")
+    hs('raw-backslash-dq', '_t = r"\\"#" + ‹§›')
+    hs('raw-ends-backslash-quote', "_t = (r'#\\'', ‹§›)")
+    hs('other-quote-inside', '_t = ("\'#", ‹§›)')
+    hs('two-strings-parity-even', '_t = ("\'", \'#\', ‹§›)')
+    hs('two-strings-parity-even2', "_t = ('\"', \"#\", ‹§›)")
+    hs('percent-format', '_t = "%#x" % ‹§›')
+    hs('fstring-field-after', '_t = f"# {‹§›}"')
+    hs('fstring-field-after-sq', "_t = f'#{‹§›!r}'")
+    hs('fstring-attr-after', '_t = f"#{§.‹zq›}"', al)
+    hs('fstring-nested-quotes', '_t = f"# {§["#"]} {‹§›}"')
+    hs('fstring-nested-string-field', '_t = f"{"#"}{‹§›}"')
+    hs('fstring-format-spec', '_t = f"{0:#x} {‹§›}"')
+    hs('fstring-format-spec-nested', '_t = f"{0:#>{‹§›}}"')
+    hs('fstring-format-spec-attr', '_t = f"{0:#>{§.‹zq›}}"', al)
+    hs('triple-continuation', '_t = ("""\n^# a""", ‹§›)')
+    hs('triple-sq-continuation', "_t = ('''\n^ # a''', ‹§›)")
+    hs('triple-continuation-plus', '_t = """\n^a # b""" + ‹§›')
+    hs('triple-f-continuation', '_t = f"""\n^# {‹§›} and more\n^"""')
+    hs('triple-f-continuation-second-field', '_t = f"""\n^# Report for {§}: {‹§›} items\n^"""')
+    hs('triple-f-continuation-attr', '_t = f"""\n^# Report for {§.‹zq›} <{§}>\n^"""', al)
+    hs('triple-f-continuation-attr2', "_t = f'''\n^## by {§} and {§.zq.‹zr›}\n^'''", al)
+    hs('triple-f-continuation-nested', '_t = f"""\n^# {§["k"]} {‹§›}\n^"""')
+    hs('triple-f-continuation-spec', '_t = f"""\n^{0:#>{‹§›}}\n^"""')
+    hs('triple-rf-continuation', '_t = rf"""\n^\\# {‹§›}\n^"""')
+    hs('backslash-continued-string', '_t = "a\\\n^# b" + ‹§›')
+    hs('backslash-continued-string-f', '_t = f"a\\\n^# {‹§›}"')
+    hs('after-line-continuation', '_t = "#" + \\\n^    "#" + ‹§›')
+    hs('trailing-comment', '_t = ‹§› # c')
+    hs('trailing-comment-quotes', 'print(‹§›)  # "quoted" it\'s')
+    hs('string-and-trailing-comment', '_t = ("#", ‹§›) # c # d')
+    hs('attr-and-trailing-comment', '_t = ("#", §.‹zq›) # §.zq', al)
+    hs('store-attr-after-string', '_t = "#"; §.‹zq› = 0', ast_)
+    hs('aug-target-after-string', 'for _i in ():\n    _t = "#"; ‹§› += 0', 'token:aug-target')
+    hs('comment-after-string', '_t = "#" # ‹§›', c)
+    hs('inside-string-after-hash', '_t = "# ‹§›"', s)
+    hs('inside-triple-continuation', '_t = """\n^# ‹§›\n^"""', s)
     # other identifier tokens (prefix + clean proposals only); several inside loop bodies, where a binding made by
     # the statement under the cursor reaches the cursor again over the loop back-edge
     def tok(role, tpl, tid=None):
@@ -663,6 +718,25 @@ class Mon(object):
                     else:
                         m2 = 'line-ending:%s' % eol[0]
                     found[i] = (m2, what + ' [holds with LF line ends]', case)
+        # a violation with a '#' left of the cursor although the cursor is in code: does it hold when those
+        # '#' (all inside string literals) are other characters?
+        L = site['line']
+        left = lines[L - 1][:col]
+        if '#' in left and site['ctx'] == 'code':
+            l2 = lines[:L - 1] + [left.replace('#', '$') + lines[L - 1][col:]] + lines[L:]
+            try:
+                ast.parse('\n'.join(l2))
+            except (SyntaxError, ValueError, RecursionError):
+                l2 = None
+            if l2 is not None:
+                t2 = eol_text(l2, eol)
+                if tok_lines(t2) != l2:
+                    t2 = '\n'.join(l2)
+                base = set(m for m, _, _ in self._check(core.Part(), env, t2, l2, site, col, where, eol, False))
+                for i, (m, what, case) in enumerate(found):
+                    if m not in base and not m.startswith('line-'):
+                        found[i] = ('hash-left-of-cursor:' + m.split(':')[0], what + " [holds when the '#' left of the "
+                                    "cursor, inside a string literal, is another character]", case)
         for m, what, case in found:
             self.violation(m, what, case)
 
@@ -679,6 +753,9 @@ class Mon(object):
             p.hist('pre_class', '%s:%s' % (site['ctx'], site['pre']))
             if site.get('variant'):
                 p.hist('variant', site['variant'])
+            if '#' in left and site['ctx'] == 'code':
+                p.count('hash_left_of_cursor_in_code_positions')
+                p.hist('hash_left_of_cursor', site.get('variant') or ('mutation:' + site.get('hash_mutation', 'natural')))
             if kind == 'token':
                 p.count('token_positions')
                 if site.get('in_loop'):
@@ -799,6 +876,10 @@ class Mon(object):
             return
         cell = '%s:%s' % (kind, where)
         p.count('transparency_compared')
+        if '#' in lines[pos[0] - 1][:pos[1]]:
+            p.count('transparency_compared_hash_left_of_cursor')
+            if exp:
+                p.count('transparency_compared_hash_left_of_cursor_nonempty')
         p.count('transparency_%s_compared' % ('name' if kind == 'name' else 'attr'))
         p.hist('transparency_cell', cell)
         if kind == 'attr-store':
@@ -856,6 +937,80 @@ def check_sites(mon, env, lines, sites, rng, per_site_interiors, eol_share=EOL_S
             mon.check(env, lines, site, col, where, eol)
         classes.add((site['ctx'], site['pre']))
     return classes
+
+
+# ---------------------------------------------------------------------------------------
+# mutations of an existing line that put a '#' left of the cursor without making a comment
+
+HASH_MUTATIONS = ('wrap-name', 'stmt-prefix-raw', 'stmt-prefix-dq', 'stmt-prefix-parity', 'trailing-comment')
+
+
+def hash_mutation(lines, site, which):
+    """-> (new_lines, new_site) or None; the site keeps its meaning, only columns move"""
+    L = site['line']
+    line = lines[L - 1]
+    s, e = site['start'], site['end']
+    shift = 0
+    if which == 'wrap-name':
+        if site['kind'] != 'name':
+            return None
+        pre = "(r'\\'#', "
+        new = line[:s] + pre + line[s:e] + ')[1]' + line[e:]
+        shift = len(pre)
+    elif which.startswith('stmt-prefix') or which == 'trailing-comment':
+        ind = len(line) - len(line.lstrip())
+        if ind > s:
+            return None
+        ins = {'stmt-prefix-raw': "r'\\'#'; ", 'stmt-prefix-dq': '"#"; ', 'stmt-prefix-parity': '"\'", \'#\'; ',
+               'trailing-comment': "'\\'#'; "}[which]
+        new = line[:ind] + ins + line[ind:]
+        if which == 'trailing-comment':
+            new += '  # "c'
+        shift = len(ins)
+    else:
+        return None
+    out = lines[:L - 1] + [new] + lines[L:]
+    ns = dict(site, start=s + shift, end=e + shift, hash_mutation=which)
+    ns['pre'] = char_class(new[ns['start'] - 1] if ns['start'] > 0 else None)
+    text = '\n'.join(out)
+    try:
+        tree = ast.parse(text)
+    except (SyntaxError, ValueError, RecursionError):
+        return None
+    if new[ns['start']:ns['end']] != site['ident']:
+        return None
+    if site['kind'] in ('name', 'attr-load', 'attr-store'):
+        if find_node(tree, out, ns) is None:
+            return None
+    elif site['kind'] == 'token':
+        # still the same kind of token?
+        try:
+            again = [t for t in enumerate_token_sites(text, out, set()) if t['line'] == L and t['start'] == ns['start']]
+        except (SyntaxError, ValueError, RecursionError, tokenize.TokenError):
+            return None
+        if not again or again[0]['sub'] != site['sub']:
+            return None
+    return out, ns
+
+
+def check_hash_mutations(mon, env, lines, sites, rng, n):
+    """n of the given sites, each on a mutated copy of its line"""
+    part = mon.p
+    cand = list(sites)
+    rng.shuffle(cand)
+    done = 0
+    for site in cand:
+        if done >= n:
+            break
+        which = rng.choice(HASH_MUTATIONS if site['kind'] == 'name' else HASH_MUTATIONS[1:])
+        r = hash_mutation(lines, site, which)
+        if r is None:
+            part.count('hash_mutation_not_applicable')
+            continue
+        done += 1
+        part.count('hash_mutations')
+        part.hist('hash_mutation', '%s:%s' % (which, site['kind']))
+        check_sites(mon, env, r[0], [r[1]], rng, 1)
 
 
 TESTED_BY_UNIT_TESTS = {('code', 'space'), ('code', 'dot'), ('code', 'lparen'), ('code', 'sol')}
@@ -939,6 +1094,8 @@ def do_text(mon, env, text, rng, n_sites, interiors, with_variants, prefer=None)
     n_tok = None if n_sites is None else max(4, (2 * n_sites) // 3)
     tpick = stratified(toks, rng, n_tok) if n_tok is not None and len(toks) > n_tok else toks
     classes |= check_sites(mon, env, lines, tpick, rng, 1)
+    n_hash = 12 if n_sites is None else max(4, n_sites // 2)
+    check_hash_mutations(mon, env, lines, pick + tpick, rng, n_hash)
     if with_variants:
         for vtext, vlines, site in variants_for(text, lines, rng, part, TEMPLATES, prefer):
             part.count('variants')
@@ -1074,6 +1231,10 @@ HAND = [
     ('import os as oo|s\n', 'token'),
     ('for it|em in ():\n    pass\n', 'token'),
     ('with open(0) as fi|le:\n    pass\n', 'token'),
+    ('class U:\n    name = 1\ncount = 2\nuser = U()\ntext = f"""\n# Report for {user.name}: {count|} items\n"""\n', 'name'),
+    ('class U:\n    name = 1\ncount = 2\nuser = U()\ntext = f"""\n# Report for {user.|name}: {count} items\n"""\n', 'attr-load'),
+    ("name = 1\nx = r'\\'#' + name|\n", 'name'),
+    ('name = 1\nx = "#" + name|  # trailing\n', 'name'),
 ]
 
 
@@ -1177,7 +1338,8 @@ def main(run):
         require=('positions', 'prefix_compared_nonempty', 'clean_checked_nonempty', 'transparency_name_compared',
                  'transparency_attr_compared', 'transparency_store_attr_compared', 'transparency_compared_nonempty',
                  'variants', 'corpus_files', 'gprog_programs', 'gclass_files', 'eol_variant_positions',
-                 'token_positions', 'token_positions_in_loop'),
+                 'token_positions', 'token_positions_in_loop', 'hash_left_of_cursor_in_code_positions',
+                 'transparency_compared_hash_left_of_cursor_nonempty', 'hash_mutations'),
         assumptions=[
             'cursor position = (1-based tokenizer line, 0-based character column), as an editor reports it',
             'identifier character = [A-Za-z0-9_] or a non-ASCII c with ("a"+c).isidentifier()',
@@ -1189,6 +1351,10 @@ def main(run):
             'a share (%d%%) of all positions is run on a line-ending variant of the same text (CRLF, CR only, LF with one '
             'stray CR before the cursor line, CRLF with one lone CR); lines and cursor lines are counted the tokenizer way; '
             'a violation that disappears when the same lines are joined with LF is labelled line-ending:<variant>' % int(EOL_SHARE * 100),
+            "templates and mutations of existing lines put a '#' left of the cursor in every non-comment place (one-line "
+            'strings of all quote/prefix kinds, escaped quotes, raw strings, continuation lines of triple-quoted strings and '
+            'f-strings with replacement fields, format specs, backslash-continued strings) and real trailing comments after '
+            'the cursor; the same oracles decide',
             'prefix and clean-proposal clauses are also checked at the end of / inside every other identifier token '
             '(binding targets, augmented-assignment targets, for/with targets, parameters, def/class names, keyword names, '
             'global/nonlocal names, as-names), inside and outside loop bodies; transparency is not defined there',
